@@ -76,7 +76,20 @@ func c09Values(tier string) (vals []c09Value, nulls []c09Null) {
 	for _, v := range [][16]byte{{}, {0x12, 0x34, 0x56, 0x78, 0x9a, 0xbc, 0xde, 0xf0, 1, 2, 3, 4, 5, 6, 7, 8}, {255, 255, 255, 255, 255, 255, 255, 255, 255, 255, 255, 255, 255, 255, 255, 255}} {
 		add("uuid", 2950, hex.EncodeToString(v[:4]), "uuid:"+hex.EncodeToString(v[:]), c09Form{"[16]byte", v}, c09Form{"pgtype.UUID", pgtype.UUID{Bytes: v, Valid: true}})
 	}
-	if tier == "thorough" {
+	// time.Time values that carry a zone: a date / timestamp (without time zone) column receives the calendar and
+	// wall-clock fields of the value as written, a timestamptz column the instant
+	for _, zone := range []*time.Location{time.FixedZone("", 2*3600), time.FixedZone("", -8*3600)} {
+		for _, hm := range [][2]int{{0, 30}, {12, 30}, {23, 30}} {
+			d := time.Date(2024, 3, 10, hm[0], hm[1], 15, 0, zone)
+			wall := time.Date(2024, 3, 10, hm[0], hm[1], 15, 0, time.UTC)
+			epoch := time.Date(2000, 1, 1, 0, 0, 0, 0, time.UTC)
+			name := d.Format(time.RFC3339)
+			add("date", 1082, name, fmt.Sprintf("date:%d", int32(time.Date(2024, 3, 10, 0, 0, 0, 0, time.UTC).Sub(epoch).Hours()/24)), c09Form{"time.Time", d})
+			add("timestamp", 1114, name, fmt.Sprintf("ts:%d", wall.Sub(epoch).Microseconds()), c09Form{"time.Time", d})
+			add("timestamptz", 1184, name, fmt.Sprintf("ts:%d", d.Sub(epoch).Microseconds()), c09Form{"time.Time", d})
+		}
+	}
+	if true {
 		for _, d := range []time.Time{time.Date(2000, 1, 1, 0, 0, 0, 0, time.UTC), time.Date(2024, 2, 29, 0, 0, 0, 0, time.UTC), time.Date(1970, 1, 1, 0, 0, 0, 0, time.UTC)} {
 			days := int32(d.Sub(time.Date(2000, 1, 1, 0, 0, 0, 0, time.UTC)).Hours() / 24)
 			add("date", 1082, d.Format("2006-01-02"), fmt.Sprintf("date:%d", days), c09Form{"time.Time", d}, c09Form{"pgtype.Date", pgtype.Date{Time: d, Valid: true}})
@@ -86,6 +99,8 @@ func c09Values(tier string) (vals []c09Value, nulls []c09Null) {
 			add("timestamp", 1114, d.Format(time.RFC3339Nano), fmt.Sprintf("ts:%d", us), c09Form{"time.Time", d}, c09Form{"pgtype.Timestamp", pgtype.Timestamp{Time: d, Valid: true}})
 			add("timestamptz", 1184, d.Format(time.RFC3339Nano), fmt.Sprintf("ts:%d", us), c09Form{"time.Time", d}, c09Form{"pgtype.Timestamptz", pgtype.Timestamptz{Time: d, Valid: true}})
 		}
+	}
+	if tier == "thorough" {
 		for _, j := range []string{`{"a":1}`, `[]`, `"s"`} {
 			add("json", 114, j, "text:"+j, c09Form{"[]byte", []byte(j)}, c09Form{"string", j})
 		}
@@ -359,6 +374,65 @@ func c09RunTwoPortals(cell c09Cell, firstBinary bool) explore.Result {
 	return res
 }
 
+// c09RunEarlierMaps: connections that re-register a standard type on THEIR OWN type map (bytea encoded by the text
+// codec) come and go; a connection that changed nothing afterwards still writes its bytea values in the standard
+// encoding of the announced format.
+func c09RunEarlierMaps(order []string) explore.Result {
+	var res explore.Result
+	res.Outcome = "values"
+	res.Key = fmt.Sprint("earlier-maps", order)
+	parse := func(ctx context.Context, q string) (wire.PreparedStatements, error) {
+		return wire.Prepared(wire.NewStatement(func(ctx context.Context, w wire.DataWriter, p []wire.Parameter) error {
+			if err := w.Row([]any{[]byte("hello"), int32(7)}); err != nil {
+				return err
+			}
+			return w.Complete("SELECT 1")
+		}, wire.WithColumns(wire.Columns{{Name: "b", Oid: oid.T_bytea}, {Name: "n", Oid: oid.T_int4}}))), nil
+	}
+	mw := wire.SessionMiddleware(func(ctx context.Context) (context.Context, error) {
+		if string(wire.ClientParameters(ctx)["user"]) == "modifier" {
+			wire.TypeMap(ctx).RegisterType(&pgtype.Type{Name: "bytea", OID: pgtype.ByteaOID, Codec: pgtype.TextCodec{}})
+			wire.TypeMap(ctx).RegisterType(&pgtype.Type{Name: "int4", OID: pgtype.Int4OID, Codec: pgtype.TextCodec{}})
+		}
+		return ctx, nil
+	})
+	srv, err := harness.NewServer(parse, mw)
+	if err != nil {
+		res.Engine = err.Error()
+		return res
+	}
+	defer srv.Stop()
+	for i, user := range order {
+		c := srv.Connect()
+		c.Step(pgproto.Startup("user", user))
+		out, _ := c.Step(pgproto.Query("q"))
+		c.Step(pgproto.Terminate())
+		c.End()
+		if user == "modifier" {
+			continue
+		}
+		ms, perr := pgproto.ParseBackend(out)
+		if perr != nil {
+			res.Fail("reply-grammar", perr.Error())
+			return res
+		}
+		if k := pgproto.Kinds(ms); k != "TDCZ" {
+			res.Fail("value-mismatch", fmt.Sprintf("connections %v one after the other (a modifier re-registers bytea and int4 on its own type map): the query of connection %d (%s) was answered %q, on a fresh server it is answered \"TDCZ\"", order, i+1, user, k))
+		}
+		for _, m := range ms {
+			if m.Type != 'D' {
+				continue
+			}
+			// (the hex form is what a connection on a fresh server receives; "hello" would be a valid bytea text too,
+			// in the escape form - but then the encoding depends on who was connected before)
+			if string(m.Row[0]) != "\\x68656c6c6f" || string(m.Row[1]) != "7" {
+				res.Fail("value-mismatch", fmt.Sprintf("connections %v one after the other (a modifier re-registers bytea and int4 on its own type map): connection %d (%s) received the fields %q %q for the bytea value \"hello\" and the int4 value 7", order, i+1, user, m.Row[0], m.Row[1]))
+			}
+		}
+	}
+	return res
+}
+
 // c09RunRowLimit: the client's Execute names a maximum number of rows. Whatever the library does with that field,
 // a row whose Row call returned nil arrives (there is no way for the handler to learn that it was dropped).
 func c09RunRowLimit(rows int, limits []uint32) explore.Result {
@@ -561,7 +635,7 @@ func init() {
 		ID:          "C09",
 		Level:       "exploration",
 		Technique:   "exhaustive enumeration over a stated value alphabet (types x boundary values x Go source forms x NULL forms x formats x NULL placements in rows of 1-3 columns), each row written through a live session and decoded by an independent decoder in the announced format",
-		Rule:        "types bool,int2,int4,int8,float4,float8,text,varchar,bytea,uuid (+date,timestamp,timestamptz,json thorough); boundary values per type; source forms native / pgtype.X{Valid:true} / pointer; NULL forms untyped nil / typed nil pointer / invalid pgtype value; text via simple query, binary via Bind result code 1; multi-column rows over a 5-type subset with every NULL placement x every NULL form; redefined statements: a name defined twice (1-3 columns each, both formats) while a portal of the first definition is open, every DataRow against the RowDescription of its own portal; non-trivial = row accepted by the writer",
+		Rule:        "types bool,int2,int4,int8,float4,float8,text,varchar,bytea,uuid,date,timestamp,timestamptz (time.Time values with and without a zone) (+json thorough); boundary values per type; source forms native / pgtype.X{Valid:true} / pointer; NULL forms untyped nil / typed nil pointer / invalid pgtype value; text via simple query, binary via Bind result code 1; multi-column rows over a 5-type subset with every NULL placement x every NULL form; redefined statements: a name defined twice (1-3 columns each, both formats) while a portal of the first definition is open, every DataRow against the RowDescription of its own portal; non-trivial = row accepted by the writer",
 		Assumptions: []string{"small-scope claim: exhaustive for the listed alphabet only", "a source form that pgx cannot encode (Row returns an error) is outside the claim; it must emit nothing"},
 		Enumerate:   c09Enumerate,
 		Bounds: func(tier string) map[string]any {
@@ -642,6 +716,11 @@ func c09Enumerate(tier string, emit explore.Emit) {
 			}
 		}
 		return c09Cell{}, false
+	}
+	for _, order := range [][]string{{"plain"}, {"modifier", "plain"}, {"plain", "modifier", "plain"}, {"modifier", "modifier", "plain", "plain"}, {"plain", "plain", "modifier", "plain", "modifier", "plain"}} {
+		order := order
+		emit(explore.Case{Family: "earlier-connection-type-map", Size: 3, Desc: func() any { return map[string]any{"connections_one_after_the_other": order} },
+			Run: func() explore.Result { return c09RunEarlierMaps(order) }})
 	}
 	for _, rows := range []int{1, 5} {
 		for _, limits := range [][]uint32{{0}, {1}, {2}, {5}, {6}, {0, 2, 1, 0}, {1 << 31}} {
